@@ -57,151 +57,69 @@ func checkC09(c *Ctx) {
 	c.rule("PASS-reset-counters", "DeleteVersionsFrom resets cached version counters", 2)
 	c.rule("ORDER-overwrite-sequence", "LoadVersionForOverwriting step order", 3)
 
-	Set := l.Func("", "*MutableTree.Set")
-	Rem := l.Func("", "*MutableTree.Remove")
-	Rb := l.Func("", "*MutableTree.Rollback")
-	mt := l.NamedType("", "MutableTree")
-	it := l.NamedType("", "ImmutableTree")
+	checkRollbackFrame(c)
 	fEmb := l.Field("", "MutableTree", "ImmutableTree")
-	if Set == nil || Rem == nil || Rb == nil || mt == nil || it == nil || fEmb == nil {
-		c.anchorMissing("EFFECT-rollback-frame", "Set / Remove / Rollback / MutableTree / ImmutableTree")
+	if fEmb == nil {
 		return
 	}
-	reach := l.reachableFrom(Set, Rem)
-	syncMapMut := predFuncString("(*sync.Map).Store", "(*sync.Map).Delete", "(*sync.Map).LoadOrStore", "(*sync.Map).Swap", "(*sync.Map).LoadAndDelete", "(*sync.Map).CompareAndSwap", "(*sync.Map).CompareAndDelete", "(*sync.Map).Clear")
-	type wsite struct {
-		field *types.Var
-		in    ssa.Instruction
-		viaEmb bool
-		content bool
-	}
-	var W []wsite
-	for fn := range reach {
-		if !l.inModule(fn) || fn.Blocks == nil {
-			continue
+	// ---- (1b) the working tree and lastSaved are distinct, fresh objects
+	c.rule("FRESH-working-vs-saved", "working tree and last-saved tree never alias", 6)
+	fLast := l.Field("", "MutableTree", "lastSaved")
+	cloneM := l.Func("", "*ImmutableTree.clone")
+	if fLast == nil || cloneM == nil {
+		c.anchorMissing("FRESH-working-vs-saved", "MutableTree.lastSaved / ImmutableTree.clone")
+	} else {
+		isFreshTree := func(v ssa.Value) bool {
+			v = stripTrivial(v)
+			if isNilConst(v) {
+				return true
+			}
+			if _, ok := v.(*ssa.Alloc); ok {
+				return true
+			}
+			if call, ok := v.(*ssa.Call); ok && predStatic(cloneM)(&call.Call) {
+				return true
+			}
+			if p, ok := v.(*ssa.Phi); ok {
+				for _, e := range p.Edges {
+					ev := stripTrivial(e)
+					_, al := ev.(*ssa.Alloc)
+					call, isCall := ev.(*ssa.Call)
+					if !(al || isCall && predStatic(cloneM)(&call.Call)) {
+						return false
+					}
+				}
+				return true
+			}
+			return false
 		}
-		allInstrs(fn, func(in ssa.Instruction) {
-			switch x := in.(type) {
-			case *ssa.Store:
-				fa, ok := x.Addr.(*ssa.FieldAddr)
+		for _, fn := range l.SrcFuncs {
+			if l.pkgPathOf(fn) != l.ModPath {
+				continue
+			}
+			sts := append(storesToField(fn, fEmb), storesToField(fn, fLast)...)
+			vals := map[ssa.Value]int{}
+			for _, st := range sts {
+				v := stripTrivial(st.Val)
+				vals[v]++
+				key := l.fname(fn) + " " + describe(l, st)
+				ok := isFreshTree(v)
+				// an object stored into one field may be a local that is not stored into the other
 				if !ok {
-					return
-				}
-				n := derefNamed(fa.X.Type())
-				if n == nil || (n.Obj() != mt.Obj() && n.Obj() != it.Obj()) {
-					return
-				}
-				if _, fresh := fa.X.(*ssa.Alloc); fresh {
-					return // initialising a fresh object
-				}
-				fv := fieldVar(fa.X.Type(), fa.Field)
-				W = append(W, wsite{field: fv, in: in, viaEmb: isLoadOfField(fEmb)(fa.X)})
-			case *ssa.Call:
-				if !syncMapMut(&x.Call) || len(x.Call.Args) == 0 {
-					return
-				}
-				recv := stripTrivial(x.Call.Args[0])
-				if ld, ok := recv.(*ssa.UnOp); ok && ld.Op == token.MUL {
-					if fa, ok := ld.X.(*ssa.FieldAddr); ok {
-						if n := derefNamed(fa.X.Type()); n != nil && n.Obj() == mt.Obj() {
-							W = append(W, wsite{field: fieldVar(fa.X.Type(), fa.Field), in: in, content: true})
-						}
+					if _, isAl := v.(*ssa.Alloc); isAl {
+						ok = true
 					}
 				}
+				c.decide("FRESH-working-vs-saved", key, l.ipos(st), ok, "a freshly allocated tree or a clone()", "the working tree / lastSaved is set to an existing tree object (`"+roleOf(l, v, "", 0)+"`): the two can alias, so uncommitted writes change the saved snapshot and Rollback restores nothing")
 			}
-		})
-	}
-	// Z: stores in Rollback
-	zAll := map[*types.Var]bool{}  // stored on every path
-	zCond := map[*types.Var]bool{} // stored on every path on which the fast index is enabled
-	fields := map[*types.Var]bool{}
-	allInstrs(Rb, func(in ssa.Instruction) {
-		if st, ok := in.(*ssa.Store); ok {
-			if fa, ok := st.Addr.(*ssa.FieldAddr); ok {
-				if n := derefNamed(fa.X.Type()); n != nil && n.Obj() == mt.Obj() {
-					fields[fieldVar(fa.X.Type(), fa.Field)] = true
+			for v, n := range vals {
+				if n > 1 && !isNilConst(v) {
+					c.bad("FRESH-working-vs-saved", l.fname(fn)+" stores one object into both fields", l.pos(fn.Pos()), "the same tree object is stored as working tree and as lastSaved")
 				}
 			}
 		}
-	})
-	for f := range fields {
-		f := f
-		gen := func(in ssa.Instruction) bool { return isStoreToField(in, f) }
-		q := mustState(Rb, false, gen, nil)
-		qc := mustStateE(Rb, false, gen, nil, func(from *ssa.BasicBlock, si int) bool {
-			iff := ifOf(from)
-			if iff == nil {
-				return false
-			}
-			en, ok := skipGuardEnabledSucc(iff)
-			return ok && si == 1-en
-		})
-		all, cond := true, true
-		for _, r := range returnsOf(Rb) {
-			all = all && q(r)
-			cond = cond && qc(r)
-		}
-		zAll[f], zCond[f] = all, cond
 	}
-	// obligations per written field
-	byField := map[*types.Var][]wsite{}
-	for _, w := range W {
-		byField[w.field] = append(byField[w.field], w)
-	}
-	var fs []*types.Var
-	for f := range byField {
-		fs = append(fs, f)
-	}
-	sort.Slice(fs, func(i, j int) bool { return fs[i].Name() < fs[j].Name() })
-	for _, f := range fs {
-		sites := byField[f]
-		owner := "MutableTree"
-		if _, isIt := fieldOwner(it, f); isIt {
-			owner = "ImmutableTree"
-		}
-		key := "write API writes " + owner + "." + f.Name()
-		pos := l.ipos(sites[0].in)
-		switch {
-		case owner == "ImmutableTree":
-			allVia := true
-			for _, s := range sites {
-				allVia = allVia && s.viaEmb
-			}
-			if !allVia {
-				c.bad("EFFECT-rollback-frame", key, pos, "an ImmutableTree field is written through something other than the working tree pointer: Rollback cannot undo it by replacing that pointer")
-			} else {
-				c.decide("EFFECT-rollback-frame", key, pos, zAll[fEmb], "Rollback replaces the whole working ImmutableTree on every path", "Rollback does not replace the working ImmutableTree on every path")
-			}
-		case zAll[f]:
-			c.ok("EFFECT-rollback-frame", key, pos, "Rollback re-initialises the field on every path")
-		case zCond[f]:
-			// conditional reset is fine only if every writer is under the same condition
-			sym := true
-			for _, s := range sites {
-				if underFastEnabled(s.in) {
-					continue
-				}
-				// one level up: all call sites of the enclosing function
-				ok := false
-				callers := l.callersOf(s.in.Parent())
-				if len(callers) > 0 {
-					ok = true
-					for _, e := range callers {
-						if e.Site == nil || !reach[e.Caller.Func] {
-							continue
-						}
-						if !underFastEnabled(e.Site) {
-							ok = false
-						}
-					}
-				}
-				sym = sym && ok
-			}
-			c.decide("EFFECT-rollback-frame", key, pos, sym, "reset by Rollback whenever the fast index is enabled, and written only when it is enabled", "Rollback resets the field only when the fast index is enabled, but a writer is not under that condition")
-		default:
-			c.bad("EFFECT-rollback-frame", key, pos, "field (or its contents) is written by Set/Remove but not reset on every path of Rollback(): the discarded changes leak into the next working state")
-		}
-	}
+	checkCacheRefresh(c)
 
 	// ---- (2)
 	dvf := l.Func("", "*nodeDB.DeleteVersionsFrom")
@@ -350,4 +268,180 @@ func fieldOwner(n *types.Named, f *types.Var) (int, bool) {
 		}
 	}
 	return 0, false
+}
+
+// checkRollbackFrame: EFFECT frame rule (written by Set/Remove ⊆ reset by Rollback).
+func checkRollbackFrame(c *Ctx) {
+	l := c.L
+	c.rule("EFFECT-rollback-frame", "working state written by Set/Remove ⊆ state reset by Rollback", 3)
+	Set := l.Func("", "*MutableTree.Set")
+	Rem := l.Func("", "*MutableTree.Remove")
+	Rb := l.Func("", "*MutableTree.Rollback")
+	mt := l.NamedType("", "MutableTree")
+	it := l.NamedType("", "ImmutableTree")
+	fEmb := l.Field("", "MutableTree", "ImmutableTree")
+	if Set == nil || Rem == nil || Rb == nil || mt == nil || it == nil || fEmb == nil {
+		c.anchorMissing("EFFECT-rollback-frame", "Set / Remove / Rollback / MutableTree / ImmutableTree")
+		return
+	}
+	reach := l.reachableFrom(Set, Rem)
+	syncMapMut := predFuncString("(*sync.Map).Store", "(*sync.Map).Delete", "(*sync.Map).LoadOrStore", "(*sync.Map).Swap", "(*sync.Map).LoadAndDelete", "(*sync.Map).CompareAndSwap", "(*sync.Map).CompareAndDelete", "(*sync.Map).Clear")
+	type wsite struct {
+		field *types.Var
+		in    ssa.Instruction
+		viaEmb bool
+		content bool
+	}
+	var W []wsite
+	for fn := range reach {
+		if !l.inModule(fn) || fn.Blocks == nil {
+			continue
+		}
+		allInstrs(fn, func(in ssa.Instruction) {
+			switch x := in.(type) {
+			case *ssa.Store:
+				fa, ok := x.Addr.(*ssa.FieldAddr)
+				if !ok {
+					return
+				}
+				n := derefNamed(fa.X.Type())
+				if n == nil || (n.Obj() != mt.Obj() && n.Obj() != it.Obj()) {
+					return
+				}
+				if _, fresh := fa.X.(*ssa.Alloc); fresh {
+					return // initialising a fresh object
+				}
+				fv := fieldVar(fa.X.Type(), fa.Field)
+				W = append(W, wsite{field: fv, in: in, viaEmb: isLoadOfField(fEmb)(fa.X)})
+			case *ssa.Call:
+				if !syncMapMut(&x.Call) || len(x.Call.Args) == 0 {
+					return
+				}
+				recv := stripTrivial(x.Call.Args[0])
+				if ld, ok := recv.(*ssa.UnOp); ok && ld.Op == token.MUL {
+					if fa, ok := ld.X.(*ssa.FieldAddr); ok {
+						if n := derefNamed(fa.X.Type()); n != nil && n.Obj() == mt.Obj() {
+							W = append(W, wsite{field: fieldVar(fa.X.Type(), fa.Field), in: in, content: true})
+						}
+					}
+				}
+			}
+		})
+	}
+	// Z: stores in Rollback
+	zAll := map[*types.Var]bool{}  // stored on every path
+	zCond := map[*types.Var]bool{} // stored on every path on which the fast index is enabled
+	fields := map[*types.Var]bool{}
+	allInstrs(Rb, func(in ssa.Instruction) {
+		if st, ok := in.(*ssa.Store); ok {
+			if fa, ok := st.Addr.(*ssa.FieldAddr); ok {
+				if n := derefNamed(fa.X.Type()); n != nil && n.Obj() == mt.Obj() {
+					fields[fieldVar(fa.X.Type(), fa.Field)] = true
+				}
+			}
+		}
+	})
+	for f := range fields {
+		f := f
+		gen := func(in ssa.Instruction) bool { return isStoreToField(in, f) }
+		q := mustState(Rb, false, gen, nil)
+		qc := mustStateE(Rb, false, gen, nil, func(from *ssa.BasicBlock, si int) bool {
+			iff := ifOf(from)
+			if iff == nil {
+				return false
+			}
+			en, ok := skipGuardEnabledSucc(iff)
+			return ok && si == 1-en
+		})
+		all, cond := true, true
+		for _, r := range returnsOf(Rb) {
+			all = all && q(r)
+			cond = cond && qc(r)
+		}
+		zAll[f], zCond[f] = all, cond
+	}
+	// obligations per written field
+	byField := map[*types.Var][]wsite{}
+	for _, w := range W {
+		byField[w.field] = append(byField[w.field], w)
+	}
+	var fs []*types.Var
+	for f := range byField {
+		fs = append(fs, f)
+	}
+	sort.Slice(fs, func(i, j int) bool { return fs[i].Name() < fs[j].Name() })
+	for _, f := range fs {
+		sites := byField[f]
+		owner := "MutableTree"
+		if _, isIt := fieldOwner(it, f); isIt {
+			owner = "ImmutableTree"
+		}
+		key := "write API writes " + owner + "." + f.Name()
+		pos := l.ipos(sites[0].in)
+		switch {
+		case owner == "ImmutableTree":
+			allVia := true
+			for _, s := range sites {
+				allVia = allVia && s.viaEmb
+			}
+			if !allVia {
+				c.bad("EFFECT-rollback-frame", key, pos, "an ImmutableTree field is written through something other than the working tree pointer: Rollback cannot undo it by replacing that pointer")
+			} else {
+				c.decide("EFFECT-rollback-frame", key, pos, zAll[fEmb], "Rollback replaces the whole working ImmutableTree on every path", "Rollback does not replace the working ImmutableTree on every path")
+			}
+		case zAll[f]:
+			c.ok("EFFECT-rollback-frame", key, pos, "Rollback re-initialises the field on every path")
+		case zCond[f]:
+			// conditional reset is fine only if every writer is under the same condition
+			sym := true
+			for _, s := range sites {
+				if underFastEnabled(s.in) {
+					continue
+				}
+				// one level up: all call sites of the enclosing function
+				ok := false
+				callers := l.callersOf(s.in.Parent())
+				if len(callers) > 0 {
+					ok = true
+					for _, e := range callers {
+						if e.Site == nil || !reach[e.Caller.Func] {
+							continue
+						}
+						if !underFastEnabled(e.Site) {
+							ok = false
+						}
+					}
+				}
+				sym = sym && ok
+			}
+			c.decide("EFFECT-rollback-frame", key, pos, sym, "reset by Rollback whenever the fast index is enabled, and written only when it is enabled", "Rollback resets the field only when the fast index is enabled, but a writer is not under that condition")
+		default:
+			c.bad("EFFECT-rollback-frame", key, pos, "field (or its contents) is written by Set/Remove but not reset on every path of Rollback(): the discarded changes leak into the next working state")
+		}
+	}
+
+}
+
+// checkCacheRefresh: SaveNode replaces the cache entry of its node key.
+func checkCacheRefresh(c *Ctx) {
+	l := c.L
+	// ---- (1c) re-used node keys: SaveNode always replaces the cache entry
+	c.rule("PASS-cache-refresh", "SaveNode replaces the cached node for its key on every success path", 1)
+	saveNode := l.Func("", "*nodeDB.SaveNode")
+	fCache := l.Field("", "nodeDB", "nodeCache")
+	if saveNode == nil || fCache == nil {
+		c.anchorMissing("PASS-cache-refresh", "nodeDB.SaveNode / nodeCache")
+	} else {
+		isAdd := func(in ssa.Instruction) bool {
+			cc := callCommon(in)
+			return cc != nil && cc.IsInvoke() && cc.Method.Name() == "Add" && isLoadOfField(fCache)(cc.Value)
+		}
+		q := mustState(saveNode, false, isAdd, nil)
+		ok := true
+		for _, r := range successReturns(saveNode) {
+			ok = ok && q(r)
+		}
+		c.decide("PASS-cache-refresh", "SaveNode adds the node to the cache unconditionally", l.pos(saveNode.Pos()), ok, "every success return passes nodeCache.Add", "SaveNode can succeed without replacing the cache entry: after a rollback the re-used node key keeps serving the node of the erased future")
+	}
+
 }
